@@ -190,6 +190,9 @@ def run(ctx):
                 if key in dig and dig[key] != refd.get(key):
                     ctx.fail("seeded_fit:%s_differs_across_thread_counts:%s" % (key, cfg), "%s digest with %d threads%s differs from %d threads" % (key, t % 1000, " (process started with an unseeded fit)" if t >= 1000 else "", ref_t),
                              dict(config=cfg, threads=[ref_t, t], seed=seed, digests=[refd.get(key), dig[key]], how="python harness/c06_worker.py %d %s under NUMBA_NUM_THREADS" % (seed, ctx.tier)))
+            if "transform_after_inverse" in dig and dig["transform_after_inverse"] != dig["transform"]:
+                ctx.fail("seeded_transform:changed_by_an_inverse_transform_call:%s" % cfg, "transform of the same data differs after an inverse_transform call on the model (threads %d)" % t,
+                         dict(config=cfg, threads=t, seed=seed, history="fit; transform(Y); inverse_transform(E); transform(Y)"))
             if "transform_again" in dig and dig["transform_again"] != dig["transform"]:
                 ctx.fail("seeded_transform:not_repeatable:%s" % cfg, "two transform calls on the same data differ (threads %d)" % t, dict(config=cfg, threads=t, seed=seed))
         # within a process: n_jobs and warm/fresh must not matter
